@@ -43,6 +43,9 @@ type SwDesc struct {
 }
 
 const (
+	// xuName is the profile of a derived claims type that is NEVER registered
+	// (a party that only encodes and signs, and never decodes)
+	xuName  = "http://sim.example/psa/unregistered"
 	xp2Name = "http://sim.example/psa/xp2"
 	xp1Name = "SIM_XP1_PROFILE"
 )
@@ -59,6 +62,8 @@ func profileNameOf(prof string) string {
 		return xp2Name
 	case "xw":
 		return xwName
+	case "xu":
+		return xuName
 	}
 	return ""
 }
@@ -72,7 +77,7 @@ func hp(b []byte) *HexBytes {
 var hashLens = []int{32, 48, 64}
 
 var textPool = []string{"BL", "PRoT", "ARoT", "M1", "", "1.2.3", "0.1.4", "v3.4.2-rc1",
-	"é中文", "quote\"back\\slash", "a<b>&c", "tab\tnl\n", "sha-256", "a very long description of a measured component, for good measure"}
+	"é中文", "quote\"back\\slash", "a<b>&c", " lead", "trail ", " ", "\t", "tab\tnl\n", "sha-256", "a very long description of a measured component, for good measure"}
 
 func genSw(r *Rng) SwDesc {
 	d := SwDesc{
@@ -135,7 +140,7 @@ func genValidClaims(r *Rng, prof string) ClaimsDesc {
 	inst[0] = 0x01
 	d.InstID = hp(inst)
 	if r.Chance(1, 2) {
-		d.VSI = sp([]string{"https://veraison.example/v1/challenge-response", "x", "é://v", "https://v.example/?a=1&b=<2>"}[r.Intn(4)])
+		d.VSI = sp([]string{"https://veraison.example/v1/challenge-response", "x", "é://v", "https://v.example/?a=1&b=<2>", " https://v.example/padded\n", " "}[r.Intn(6)])
 	}
 	if p1 {
 		d.BootSeed = hp(r.Bytes(32))
@@ -151,10 +156,17 @@ func genValidClaims(r *Rng, prof string) ClaimsDesc {
 		}
 		if r.Chance(1, 4) {
 			one := uint(1)
+			if r.Chance(1, 4) {
+				// the flag is asserted by presence; senders have been seen to use other values
+				one = []uint{0, 2, 255}[r.Intn(3)]
+			}
 			d.NoMeas = &one
 			d.SwNil = r.Chance(1, 2)
 		} else {
 			n := r.Range(1, 4)
+			if r.Chance(1, 25) {
+				n = r.Range(15, 40) // a long component list
+			}
 			for i := 0; i < n; i++ {
 				d.Sw = append(d.Sw, genSw(r))
 			}
@@ -168,11 +180,14 @@ func genValidClaims(r *Rng, prof string) ClaimsDesc {
 			d.CertRef = sp(genDigits(r, 13) + "-" + genDigits(r, 5))
 		}
 		n := r.Range(1, 4)
+		if r.Chance(1, 25) {
+			n = r.Range(15, 40) // a long component list
+		}
 		for i := 0; i < n; i++ {
 			d.Sw = append(d.Sw, genSw(r))
 		}
 	}
-	if prof == "xp1" || prof == "xp2" {
+	if prof == "xp1" || prof == "xp2" || prof == "xu" {
 		if r.Chance(1, 2) {
 			x := int64(r.Intn(1 << 30))
 			if r.Chance(1, 4) {
@@ -571,6 +586,17 @@ func (d *ClaimsDesc) buildRaw() (psatoken.IClaims, error) {
 		return x, nil
 	case "xp2":
 		b, err := buildP2(d, xp2Name)
+		if err != nil {
+			return nil, err
+		}
+		x := &XP2Claims{P2Claims: *b}
+		if d.Extra != nil {
+			v := *d.Extra
+			x.Extra = &v
+		}
+		return x, nil
+	case "xu":
+		b, err := buildP2(d, xuName)
 		if err != nil {
 			return nil, err
 		}
